@@ -282,6 +282,9 @@ func Harness_C34_ClearUnread() {
 
 // ---------------------------------------------------------------- entry 3: SetUnread(N)
 
+// Harness_C34_SetUnread: which commands reach the store, with every port answer symbolic
+// (missing / tombstoned membership, port errors, misaligned or non-OK heads, negative N), and
+// the cursor handed to the store. The value reached by the cursor is Harness_C34_SetUnreadValue.
 func Harness_C34_SetUnread() {
 	app, s := c34NewApp()
 	n := zzsym.Int("cmd.unread")
@@ -304,16 +307,42 @@ func Harness_C34_SetUnread() {
 	}
 	zzsym.Reach("set-ok")
 	zzsym.Assert(s.found && !s.row.Tombstone && len(s.heads) == 1, "SetUnread succeeded without a live membership / aligned head")
+	zzsym.Observe("set", uint64(s.advances), s.advancedTo)
+}
+
+// Harness_C34_SetUnreadValue: a live membership, an aligned usable head, working ports; row, head
+// and N fully symbolic. After SetUnread(N) the unread count recomputed from the row as the store
+// now holds it is at most N.
+func Harness_C34_SetUnreadValue() {
+	s := &c34Store{row: c34SymRow(), found: true}
+	zzsym.Assume(!s.row.Tombstone)
+	s.heads = []HydrationResult{c34SymHead(zzsym.Thorough() && zzsym.Choice("withMessage", 2) == 1)}
+	if zzsym.Thorough() {
+		zzsym.Assume(s.heads[0].Outcome == HydrationOK || s.heads[0].Outcome == HydrationNoVisibleMessage)
+	} else {
+		zzsym.Assume(s.heads[0].Outcome == HydrationOK)
+	}
+	app := New(Options{Hydrator: s, MembershipMutations: s, Now: func() time.Time { return time.Unix(0, c34Now) }})
+	n := zzsym.Int("cmd.unread")
+	zzsym.Assume(n >= 0)
+	err := app.SetUnread(context.Background(), SetUnreadCommand{UID: "u1", ChannelID: "g1", ChannelType: 2, Unread: n})
+	zzsym.Assert(err == nil, "SetUnread failed on a live membership with working ports")
+	if s.advances == 1 {
+		zzsym.Reach("value-advanced")
+		zzsym.Assert(s.advancedTo > s.row.ReadSeq, "SetUnread passed a read cursor that does not advance ReadSeq (value)")
+	} else {
+		zzsym.Reach("value-unchanged")
+	}
 	conv, ok := c34Recompute(s)
 	if ok {
 		zzsym.Reach("set-recomputed")
 		zzsym.Assert(conv.Unread <= uint64(n), "unread exceeds N after SetUnread(N)")
-		zzsym.Assert(conv.Unread <= s.heads[0].LastCommittedSeq, "unread after SetUnread exceeds LastCommittedSeq")
-		if conv.Unread == uint64(n) && n > 0 {
+		// witness that the bound is tight for some N > 0 (one fork only)
+		if zzsym.B2U(conv.Unread == uint64(n))&zzsym.B2U(n > 0) == 1 {
 			zzsym.Reach("set-exactly-n")
 		}
 	}
-	zzsym.Observe("set", uint64(s.advances), s.advancedTo, conv.Unread, zzsym.B2U(ok))
+	zzsym.Observe("setvalue", uint64(s.advances), s.advancedTo, conv.Unread, zzsym.B2U(ok))
 }
 
 // ---------------------------------------------------------------- entry 4: DeleteConversation
